@@ -28,6 +28,9 @@ def _pwrites(events, protected, include_all_iterations=True):
             a = loc_attr(e.loc)
             if a in protected:
                 out.append((a, e.how, e.site, e.fn))
+        elif e.kind == 'comp':
+            # effects of the element expression of a comprehension (e.g. a draining generator consumed by sorted())
+            out.extend(_pwrites(e.d.get('events') or (), protected, include_all_iterations))
         elif e.kind == 'loop':
             if e.d.get('partial') and include_all_iterations:
                 # earlier iterations of the same loop ran the body to completion
@@ -82,10 +85,10 @@ def dirty_raises(ctx, entry, protected=PROTECTED, max_paths=6000):
         ws = _pwrites(p.events, protected)
         if not ws:
             key = (fn, cls, site)
-            reports.setdefault(key, {'entry': entry, 'fn': fn, 'exc': cls, 'site': site, 'guard': guard_of(p), 'writes': []})
+            reports.setdefault(key, {'entry': entry, 'fn': fn, 'exc': cls, 'site': site, 'guard': guard_of(p), 'writes': [], 'owner': exc[4] if exc and len(exc) > 4 else None})
             continue
         key = (fn, cls, site)
-        rep = reports.setdefault(key, {'entry': entry, 'fn': fn, 'exc': cls, 'site': site, 'guard': guard_of(p), 'writes': []})
+        rep = reports.setdefault(key, {'entry': entry, 'fn': fn, 'exc': cls, 'site': site, 'guard': guard_of(p), 'writes': [], 'owner': exc[4] if exc and len(exc) > 4 else None})
         for w in ws:
             if w not in rep['writes']:
                 rep['writes'].append(w)
@@ -101,7 +104,11 @@ def raise_signature(M, exc):
         return ('?', '?', ())
     _, cls, site, fqn = exc[:4]
     fn = M.funcs.get(fqn)
+    if fn is None:
+        fn = next((g for g in M.all_funcs() if g.qn == fqn), None)
     owner = fn.cls.name if fn is not None and fn.cls is not None else (fqn.rsplit('.', 1)[0] if fn is not None else '?')
+    if (fn is None or fn.cls is None) and len(exc) > 4 and exc[4]:
+        owner = exc[4]
     leaves = set()
     if fn is not None:
         try:
